@@ -73,6 +73,14 @@ CLAIMED = {
          "a_tf_set_num/set_den/init/zero for every order; a_lpf_iter/a_hpf_iter equal the documented update for all doubles (same-expression congruence), pass-through/hold cases, zero/init (P). Bounded units (orders <= 4): a_tf_iter delay lines are the new sample followed by the old entries (ghost witness, exactly sized blocks), returned y is what is pushed and equals sum num*input - sum den*output on the exact domain in the code's accumulation order, two/three steps from zero state and a_tf_zero replay; a_real_push_fore/back incl. n = 0, 1. LTI, range for general alpha, settling and the gen() range are not applicable.",
          "trusted: cbmc 6.11.0, cvc5; element-wise memmove stub in the equation units (shift itself proved against cbmc's model); orders bounded; rounding-dependent clauses not applicable",
          "contract-based deductive verification with CBMC: Hoare triples; bounded stand-ins for the order-dependent loops", "5/C16"),
+ "C14": ("proof",
+         "Comparison-level clauses of the trapezoidal and bell generators/evaluators as Hoare triples over IEEE doubles (cvc5, one query per obligation; pointer checks in SAT companion units): degenerate request plans nothing; p0/p1 stored and v0/v1 stored clamped; plan shapes; for any context with ordered phase boundaries queries before the start / after the end hold the boundary state and pos/vel/acc(/jer) select the same phase (seven bell segments, mirrored by direction); jerk is +-jm or 0; t = ta + tv + td, tv >= 0, ta >= 2 taj and td >= 2 tdj in no-cruise plans; the bisection loop of a_trajbell_gen closed by a loop contract incl. termination. Bounded companions on small integer requests catch formula slips the nonlinear units cannot refute. Kinematic limits, continuity and end state are not applicable.",
+         "trusted: cbmc 6.11.0, cvc5; sqrt by assumed contract; requests <= 2^200; kinematic/continuity/end-state clauses not applicable (nonlinear real arithmetic with sqrt)",
+         "contract-based deductive verification with CBMC: Hoare triples, loop contract on the bisection loop, bounded companions", "5/C14"),
+ "C15": ("proof",
+         "For all doubles: a_trajpolyN_gen stores c[0]=p0, c[1]=v0, c[2]=a0/2; pos/vel/acc/jer at time zero return c[0], c[1], 2c[2], 6c[3]; pos/vel/acc/jer(x) are a_poly_eval_ of exactly the accessor coefficient vectors (call protocol). Bounded/exact-domain units: accessor vectors are the derivative coefficient vectors; final-time boundary identities for ts in {1,2,4} with small integer data (guards the closed-form constants); a_poly_eval_/evar_ equal the Horner value and eval(a) == evar(reverse a) for up to 9 coefficients; a_poly_swap_ reverses and is an involution for n <= 16. End-time accuracy 'within rounding' for general data is not applicable.",
+         "trusted: cbmc 6.11.0, cvc5; |c| <= 2^1000 at time zero (inf*0); jerk c[3] = j0*(1/6) is exact only for j0 = 3*dyadic (recorded, not asserted); swap loop contract could not be closed for unbounded n",
+         "contract-based deductive verification with CBMC: Hoare triples over doubles, exact-domain and bounded-length stand-ins", "5/C15"),
 }
 
 PENDING_REASON = "check not built yet in this session (work in progress; see DESIGN.md section 5 for the planned contracts)"
